@@ -17,7 +17,7 @@ def _expected(sign):
             "eq": sign == 0, "ne": sign != 0}
 
 
-def consistent(a, b, sign):
+def consistent(a, b, sign, need_hash=True):
     """all six operators, both operand orders, agree with `sign` (a vs b); hashes agree on eq"""
     try:
         exp = _expected(sign)
@@ -30,7 +30,7 @@ def consistent(a, b, sign):
                 return False
     except TypeError:
         return False
-    if sign == 0:
+    if sign == 0 and need_hash:
         try:
             if hash(a) != hash(b):
                 return False
@@ -40,8 +40,9 @@ def consistent(a, b, sign):
 
 
 class Pool:
-    def __init__(self, name):
+    def __init__(self, name, need_hash=True):
         self.name = name
+        self.need_hash = need_hash
         self.classes = []       # list of lists of (text, version), strictly increasing
         self.rejected = []      # (text, reason)
         self.hashable = True
@@ -75,7 +76,7 @@ class Pool:
             else:
                 sign = -1 if pos <= i else 1
             for _, w in cl:
-                if not consistent(v, w, sign):
+                if not consistent(v, w, sign, self.need_hash):
                     self.rejected.append((text, "inconsistent"))
                     return False
         if same is not None:
@@ -93,8 +94,8 @@ class Pool:
         return cl[0] if rng is None else rng.choice(cl)
 
 
-def build_pool(name, rng, size=40, respell=0.3):
-    p = Pool(name)
+def build_pool(name, rng, size=40, respell=0.3, need_hash=True):
+    p = Pool(name, need_hash)
     tries = 0
     while p.n() < size and tries < size * 6:
         tries += 1
